@@ -31,6 +31,19 @@ add("C05", "model_checking",
     "trusted: refmodel::ref_ipfix_sets/decode and the defect models refmodel::Q; IE -> (name, class) table is the library's",
     "bounded-exhaustive enumeration of call histories vs reference model (explicit-state)", "DESIGN.md §5 C05", "E-ENUM")
 
+add("C09", "model_checking",
+    "Every V9 packet returned by parse_bytes anywhere in C04's conformant stream spaces and in the grammar-product / byte-deviation families (accepted deviants, with cached templates) is re-exported and compared with the slice it occupied; differences are attributed per flowset (re-exported in isolation) and per field using the template that governed decoding, so each recorded lossy field class has its own signature and any other difference is a violation.",
+    "trusted: reexport.rs; occupied slice computed from the packet's own flowset lengths (C02's law)",
+    "bounded-exhaustive enumeration of call histories with a round-trip oracle (explicit-state)", "DESIGN.md §5 C09", "E-ENUM")
+add("C10", "model_checking",
+    "Same construction as C09 for IPFIX over C05's spaces and the IPFIX grammar-product / byte-deviation families: every returned message is re-exported and compared with the header.length bytes it occupied, with per-set and per-field attribution (variable-length prefixes, enterprise bits, padding, unreported sets).",
+    "trusted: reexport.rs",
+    "bounded-exhaustive enumeration of call histories with a round-trip oracle (explicit-state)", "DESIGN.md §5 C10", "E-ENUM")
+add("C14", "fault_enumeration",
+    "Every cut point strictly inside every seed packet (V5/V7 with 0,1,2,3,30(,max) records; V9 and IPFIX template / data / template+data / options packets over all class representatives; V9 flowset boundaries excluded as the property says) alone, after a V5 packet and after the template packet it needs: the last element must be an error carrying exactly the truncated packet, earlier elements unchanged, and V5/V7/IPFIX caches unchanged.",
+    "seed validity (decodes without error, single packet) is asserted at run time; trusted: c14::judge",
+    "exhaustive fault (truncation point) enumeration on the real parser", "DESIGN.md §5 C14", "E-ENUM")
+
 ALL = ["C%02d" % i for i in range(1, 18)]
 PENDING = {}
 checks = []
